@@ -556,6 +556,53 @@ C07_one(step) ==
   IN Cl("C07_one", IsRT(step, "rdf") /\ step.exc = "none",
         once(step.back.recs) /\ \A j \in 1..Len(step.back.bundles) : once(step.back.bundles[j].recs))
 C07Clauses(step) == IF IsRT(step, "rdf") THEN {C07_noexc(step), C07_rt(step), C07_one(step)} ELSE {}
+(* C11 — reading foreign PROV-JSON / PROV-XML is stable under re-serialisation           *)
+(* step.res = [exc, d: loaded, d2: loaded again after the library re-wrote d, d3: after the *)
+(* other format, cross]; for Load also step.src (what the text was generated from); for       *)
+(* Corpus also step.res0 (the unmutated file)                                                 *)
+Skeleton(recs) == [i \in 1..Len(recs) |->
+                     [k |-> recs[i].k, id |-> recs[i].id,
+                      attrs |-> {<<a, CountIn([j \in 1..Len(recs[i].attrs) |-> recs[i].attrs[j].a], a)>>
+                                   : a \in {recs[i].attrs[j].a : j \in 1..Len(recs[i].attrs)}}]]
+SkeletonEq(d1, d2) ==
+  /\ SameBag(Skeleton(d1.recs), Skeleton(d2.recs))
+  /\ Len(d1.bundles) = Len(d2.bundles)
+  /\ \A i \in 1..Len(d1.bundles) : \E j \in 1..Len(d2.bundles) :
+        d1.bundles[i].id = d2.bundles[j].id /\ SameBag(Skeleton(d1.bundles[i].recs), Skeleton(d2.bundles[j].recs))
+IsC11(step) == step.op.op \in {"Load", "Corpus"}
+Loaded(step) == IsC11(step) /\ step.exc = "none" /\ step.res.exc = "none"
+(* a failure to load is a library error or a ValueError from a lexical form, never an arbitrary crash *)
+C11_error(step) ==
+  Cl("C11_error", IsC11(step) /\ step.exc = "none" /\ step.res.exc # "none",
+     SubSeq(step.res.exc, 1, 6) = "Error:" \/ SubSeq(step.res.exc, 1, 11) = "ValueError:")
+C11_stable(step) == Cl("C11_stable", Loaded(step), DocBagEq(step.res.d2, step.res.d))
+(* PROV-XML spells a qualified-name value as xsi:type="xsd:QName", so a document holding a *)
+(* LITERAL typed xsd:QName is not XML-expressible (C02) and is outside the cross clause     *)
+HasQNameLiteral(d) ==
+  LET recs == d.recs \o FlattenSeq([i \in 1..Len(d.bundles) |-> d.bundles[i].recs]) IN
+  \E i \in 1..Len(recs) : \E j \in 1..Len(recs[i].attrs) :
+     recs[i].attrs[j].v.t = "lit" /\ recs[i].attrs[j].v.dt = <<"xsd#", "QName">>
+C11_cross(step) ==
+  Cl("C11_cross", Loaded(step) /\ step.res.cross # "none" /\ ~HasQNameLiteral(step.res.d),
+     step.res.cross = "done" /\ DocBagEq(step.res.d3, step.res.d))
+(* nothing dropped, nothing invented: the records, their identifiers and the number of values *)
+(* per attribute are those of the text; exactly the same content when every spelling used is   *)
+(* one the library normalises                                                                  *)
+C11_faithful(step) ==
+  Cl("C11_faithful", step.op.op = "Load" /\ Loaded(step),
+     /\ SkeletonEq(step.res.d, step.src)
+     /\ step.op.fl.qn # "QName" => DocBagEq(step.res.d, step.src))
+(* a content-preserving mutation of a corpus file loads to the same content as the file itself *)
+C11_preserve(step) ==
+  Cl("C11_preserve", step.op.op = "Corpus" /\ Loaded(step) /\ step.res0.exc = "none",
+     DocBagEq(step.res.d, step.res0.d))
+C11_corpus_loads(step) ==
+  Cl("C11_corpus_loads", step.op.op = "Corpus" /\ step.exc = "none" /\ step.res0.exc = "none", step.res.exc = "none")
+C11Clauses(step) ==
+  IF IsC11(step)
+  THEN {C11_error(step), C11_stable(step), C11_cross(step)}
+       \cup (IF step.op.op = "Load" THEN {C11_faithful(step)} ELSE {C11_preserve(step), C11_corpus_loads(step)})
+  ELSE {}
 C01Clauses(step) == IF IsRT(step, "json") THEN {C01_noexc(step), C01_rt(step)} ELSE {}
 C10Clauses(step) == IF IsRT(step, "json") THEN {C10_wf_json(step), C10_read_json(step)}
                     ELSE IF IsRT(step, "xml") THEN {C10_wf_xml(step), C10_read_xml(step)} ELSE {}
